@@ -863,7 +863,11 @@ func (v *Verifier) declareGhostFunc(gf *GhostFunc, pkg *types.Package) {
 			}
 			body = t.S
 		}
-		v.decls.interp[key] = "(define-fun " + gf.Name + " (" + strings.Join(names, " ") + ") " + rs + " " + body + ")"
+		kw := "define-fun"
+		if strings.Contains(body, "("+gf.Name+" ") {
+			kw = "define-fun-rec" // recursive interpretation (refutation / candidate queries only)
+		}
+		v.decls.interp[key] = "(" + kw + " " + gf.Name + " (" + strings.Join(names, " ") + ") " + rs + " " + body + ")"
 	}
 	v.decls.add(key, "(declare-fun "+gf.Name+" ("+strings.Join(ps, " ")+") "+rs+")")
 }
